@@ -461,6 +461,13 @@ pub fn observe(e: &mut Emu, m128: bool) -> BTreeMap<String, String> {
         let c = e.verif_cpu();
         (c.halted, c.skip_interrupt, prefix_num(c.verif_active_prefix()))
     };
+    {
+        // hidden latches an SZX file describes (Z80R: wMemPtr, ZXSTZF_FSET)
+        let c = e.verif_cpu();
+        let (q, mp) = (c.regs.verif_q(), c.regs.get_mem_ptr());
+        m.insert("q".into(), format!("{:02x}", q));
+        m.insert("mp".into(), format!("{:04x}", mp));
+    }
     m.insert("halt".into(), (halt as u8).to_string());
     m.insert("skip".into(), (skip as u8).to_string());
     m.insert("mid".into(), ((pfx != 0) as u8).to_string());
